@@ -21,6 +21,10 @@ Check C16_profit_factor : forall ps t,
   else if Qceqb losses 0 then Some PFMax
   else if Qceqb wins 0 then Some PFMin
   else Some (PFVal (wins / - losses)).
+Check C16_profit_factor_sign : forall p l : Qc,
+  profit_factor_calc p (- l) = profit_factor_calc p l /\
+  profit_factor_calc (- p) l = profit_factor_calc p l /\
+  (p <> 0 -> profit_factor_calc p (- p) = Some (PFVal 1)).
 Check C16_return_datasets : forall ps t,
   pr_total (g_pr (tsg_run ps (tsg_init t))) = ds_run (map pnl_return ps) /\
   pr_losses (g_pr (tsg_run ps (tsg_init t))) =
